@@ -19,6 +19,18 @@ CHECKER = "make -C /verif/coq Props/C11_decoders.vo && coqc -Q /verif/coq GMQ Pr
 ALLOC_FACTOR, ALLOC_CONST = 160, 64 * 1024
 
 
+def nest_depth(text):
+    """Nesting depth of tables/arrays in a canonical value text."""
+    depth = mx = 0
+    for ch in text:
+        if ch == "[":
+            depth += 1
+            mx = max(mx, depth)
+        elif ch == "]":
+            depth -= 1
+    return mx
+
+
 def run_decoders(res, own_result=False):
     quick = res.tier == "quick"
     problems = []
@@ -38,13 +50,25 @@ def run_decoders(res, own_result=False):
     bad_d, allocs = None, {}
     if pr["runners_ok"]:
         _, bad_d, allocs, skipped = cc.eval_cases([], alld, "C11d")
+    # open finding F61 (quadratic allocation in the nesting depth of tables): its witness is replayed separately
+    f61 = [f for f in vlib.known_findings("C11") if f.get("id") == "F61"]
+    wit = os.path.join(vlib.VERIF, "corpus", "C11", "F61-nested-tables.case")
+    if f61 and os.path.exists(wit):
+        for l in open(wit):
+            l = l.split("#")[0].strip()
+            if l:
+                k, dd, hx = l.split()
+                w = cc.DLine(vlib.harness(exe, ["dec", k, dd, hx]).strip())
+                if w.alloc > ALLOC_FACTOR * (len(hx) // 2) + ALLOC_CONST:
+                    res.known_finding("F61", "ReadTable allocates %d bytes for a %d-byte table nested %d deep (quadratic in the nesting depth)"
+                                      % (w.alloc, len(hx) // 2, nest_depth(w.value)))
     panics = [d for d in alld if d.cls == "Panic"]
     # allocation class: what the implementation allocated against what the model accounts for
     balloon = []
     for i, d in enumerate(alld):
         n = len(d.hex) // 2
         allowed = ALLOC_FACTOR * n + ALLOC_CONST + 3 * allocs.get(i, 0)
-        if d.alloc > allowed:
+        if d.alloc > allowed and not (f61 and nest_depth(d.value) > 64):
             balloon.append((d.alloc / float(max(n, 1)), i))
     balloon.sort(reverse=True)
     cov.update(evaluations=len(alld), panics=len(panics), class_mismatches=len(bad_d or []),
